@@ -479,6 +479,53 @@ def c08(run, tier):
         run.trace_validate(["-fam", "mixed", "-n", str(Q(tier, 2500, 20000)), "-sub", str(200 + i)], "renderings%d" % i)
 
 
+def c15(run, tier):
+    import os, json
+    from infra import Infra
+    # structured inputs from the specification's generators: every lexeme string (accepted and rejected) and every
+    # Unmarshal call are replayed here for totality only (panic / nil-nil); malformed documents are part of C09/C16
+    for alpha in ["core", "lex"]:
+        cfg = run.cfg("MC_Grammar.cfg", {"Alphabet": '"%s"' % alpha, "MaxLen": Q(tier, 3, 4)}, "gen.%s.cfg" % alpha)
+        rep = run.tlc_gen_replay("MC_Grammar", cfg, alpha, timeout=Q(tier, 600, 3600), harness_args=["-workers", "1"])
+        run.absorb(rep, {"panic", "nil-nil"})
+    cfg = run.cfg("MC_Unmarshal.cfg", {}, "genu.cfg")
+    rep = run.tlc_gen_replay("MC_Unmarshal", cfg, "unmarshal", timeout=600)
+    run.absorb(rep, {"panic", "nil-nil"})
+    # seeded mutation fuzzing of every public entry point, in child processes
+    out = os.path.join(run.work, "fuzz.json")
+    p = run.harness_cmd(["fuzz", "-n", str(Q(tier, 200000, 4000000)), "-workers", "16", "-report", out], "fuzz", timeout=Q(tier, 900, 7200))
+    if p.returncode != 0 or not os.path.exists(out):
+        raise Infra("fuzz driver failed: " + (p.stdout + p.stderr)[-1500:])
+    fz = json.load(open(out))
+    if fz["inputs"] == 0:
+        raise Infra("fuzz driver produced no inputs")
+    run.evaluations += fz["inputs"]
+    run.distinct_nontrivial += fz["nontrivial"]
+    run.stage_info.append({"stage": "fuzz", "inputs": fz["inputs"], "distinct": fz["distinct"], "got_past_first_stage": fz["nontrivial"], "problems": fz["kinds"]})
+    for s in (fz.get("samples") or [])[:2]:
+        run.samples.append({"fuzz_input": s})
+    rdir = os.path.join("/verif/replays", run.pid)
+    for i, pr in enumerate(fz.get("problems") or []):
+        os.makedirs(rdir, exist_ok=True)
+        path = os.path.join(rdir, "fuzz-%d.json" % i)
+        json.dump(dict(pr, fam="C15.fuzz"), open(path, "w"))
+        run.violations.append({"aspect": pr["kind"], "fam": "C15.fuzz", "text": pr["entry"] + ": " + pr["input"][:200], "detail": pr["detail"][:400], "replay": path})
+    run.viol_total = getattr(run, "viol_total", 0) + sum(fz["kinds"].values())
+
+
+def c15_replay(run, path):
+    import json, subprocess
+    rc = json.load(open(path))
+    run.build_harness()
+    if rc.get("fam") != "C15.fuzz":
+        p = subprocess.run([run.harness, "replay-one", path], env=run.env)
+        return p.returncode
+    p = subprocess.run([run.harness, "fuzz-one", path], env=run.env)
+    if p.returncode == 1:
+        print("VIOLATION property=C15 replay=%s" % path)
+    return p.returncode
+
+
 def adapter_replay(run, path):
     import json, os, subprocess
     rc = json.load(open(path))
@@ -613,6 +660,14 @@ PROPS = {
             "(minimal / redundant parentheses x abbreviated / not, random white space); recorded random expressions in random renderings are judged by Trace_Xsel; non-trivial = accepted strings",
             "exhaustive": {"quick": True, "thorough": True},
             "assumptions": BASE_ASSUME + ["lexemes are rendered by the harness with a NeedsSpace rule so that the text tokenises into the intended lexemes; arbitrary byte strings are C15's business"]},
+    "C15": {"run": c15, "replay": c15_replay, "level": "exploration",
+            "rule": "structured inputs from the specification's generators - every lexeme string up to the bound over the core and lex alphabets (accepted and rejected) and all 980 Unmarshal calls of MC_Unmarshal - replayed for "
+            "totality only; plus seeded mutation fuzzing in 16 child processes: rendered well-typed random expressions (must never yield 'xpath query panic') and byte-mutated ones through BuildExpr / Exec / ExecAs* with variable, "
+            "namespace and function bindings from random context nodes; byte-mutated XML / HTML / JSON through the three readers followed by a query over the returned tree; xsel.Unmarshal with 22 target values of every kind "
+            "(nil, non-pointers, nil pointers, pointer chains, interfaces, maps, channels, functions, arrays, nested slices); adversarial depth (nested parentheses, minus chains, step chains, sums, predicates, nested calls, nested "
+            "elements/arrays up to depth 800, thorough 4000); a crashed or hung child is a violation; distinct = distinct input strings, non-trivial = inputs that got past the first stage (compiled / parsed / filled)",
+            "exhaustive": {"quick": False, "thorough": False},
+            "assumptions": ["the Go runtime reports every panic through recover() except fatal errors, which are observed as child process exits", "hang detection is a 15-minute limit per batch"]},
     "C01": {
         "run": c01,
         "rule": "TLC enumerates every document the Store machine can build within the node bound (all kinds, names a/b x {no namespace,U1}), "
